@@ -220,3 +220,45 @@ Proof.
     destruct (fold_probe_LDI c (w_fs (s_w s)) um _ (ld_order ld0) ld0 H0) as [H1 H2].
     split; [exact H1|]. split; [reflexivity|]. f_equal. symmetry. exact H2.
 Qed.
+
+(* ------------------------------------------------------------------ layer directories *)
+Definition paths_ok (c : cfgT) (m : lmap) : Prop := forall l, In l m -> l_path l = layer_path c (l_name l).
+Lemma paths_ok_set c m l l0 : paths_ok c m -> lm_get m (l_name l0) = Some l0 -> core l = core l0 ->
+  paths_ok c (lm_set m l).
+Proof.
+  intros H Hg Hc x Hx. apply lm_set_in in Hx as [->|Hx]; [|now apply H].
+  unfold core in Hc. injection Hc as C1 C2 C3 C4 C5. rewrite C5, C1. apply H. eapply lm_get_in; eauto.
+Qed.
+Lemma paths_ok_overlain c ms m : paths_ok c m -> paths_ok c (overlain_map c ms m).
+Proof.
+  intros H l Hl. unfold overlain_map in Hl. apply in_map_iff in Hl as (l0 & <- & Hl0). exact (H _ Hl0).
+Qed.
+Lemma probe_layer_paths c f um ld n : paths_ok c (ld_map ld) -> paths_ok c (ld_map (probe_layer c f um ld n)).
+Proof.
+  intros H. unfold probe_layer. destruct (lm_get (ld_map ld) n) as [l|] eqn:El; [|exact H].
+  destruct (l_state l =? st_error)%N; [exact H|]. cbv zeta. cbn [ld_map].
+  pose proof (lm_get_name _ _ _ El) as En. subst n.
+  apply (paths_ok_set c _ _ l H El).
+  repeat match goal with |- context [if ?b then _ else _] => destruct b end;
+    rewrite ?find_layerstate_core; reflexivity.
+Qed.
+Lemma fold_probe_paths c f um names : forall ld, paths_ok c (ld_map ld) ->
+  paths_ok c (ld_map (fold_left (probe_layer c f um) names ld)).
+Proof.
+  induction names as [|n r IH]; intros ld H; cbn [fold_left]; [exact H|]. apply IH. now apply probe_layer_paths.
+Qed.
+Lemma rlf_paths c f : paths_ok c (read_layer_files c f).
+Proof.
+  intros l Hl. apply rlf_in in Hl as (n & _ & _ & H). apply load_layer_props in H as (<- & _ & H). exact H.
+Qed.
+Lemma get_layers_paths c um s ld s' : get_layers c um s = (Ret ld, s') -> paths_ok c (ld_map ld).
+Proof.
+  unfold get_layers, find_layers, bind, get_fs. cbv beta iota.
+  destruct (negb (is_dir (w_fs (s_w s)) (c_layers c))); [discriminate|].
+  destruct (negb (check_inheritance (read_layer_files c (w_fs (s_w s))))); [discriminate|].
+  destruct (normalize_order (read_layer_files c (w_fs (s_w s)))) as [o|]; [|discriminate].
+  unfold ret at 1. cbv beta iota. unfold probe_all, bind. rewrite refresh_eq.
+  destruct (probe_of (w_ks (s_w s))) as [|ms ds]; [discriminate|].
+  unfold get_fs, ret. cbv beta iota. intros H. injection H as <- _.
+  apply fold_probe_paths. cbn [ld_map]. apply paths_ok_overlain. apply rlf_paths.
+Qed.
